@@ -13,7 +13,7 @@ import (
 func init() {
 	register(&Prop{
 		ID: "C06", Level: "exploration",
-		Rule: "one case = (a) a writer task parked at one stage of a write transaction's life - lock just taken, root loaded, after k uncommitted writes, inside an Updates function, after Snapshot()/Iter(), at commit, before the store, after the store with the lock still held, before unlock - while 1-4 reader tasks run 1-3 read entry points each to completion (ServeHTTP incl. trailing-slash/404/405/OPTIONS answers and handlers that read the router, Lookup+Close, Reverse, Has, Route, Len, Iter.All/Methods/Prefix/Routes/Reverse, read-only Txn with Commit/Abort, View, Stats, NewRoute); the writer is released only after every reader finished, so a reader that needs the writer lock shows up as lock-waiting (instrumented Lock) or as a goroutine blocked in a sync primitive (stall detector), both violations; or (b) the converse: readers parked mid-iteration / holding a Lookup context / inside a handler / inside View while 1-2 writers must run to completion. Router options are drawn per run; one run in six works on a tree deeper than 25 levels (iterators then size their stack from the tree depth). Non-trivial: at least one reader ran while the writer was parked (a) or a writer committed while a reader was parked (b); distinct = hash of (stage, reader programs, schedule).",
+		Rule: "one case = (a) a writer task parked at one stage of a write transaction's life - lock just taken, root loaded, after k uncommitted writes, inside an Updates function, after Snapshot()/Iter(), after Truncate (all methods or one), at commit, before the store, after the store with the lock still held, before unlock - while 1-4 reader tasks run 1-3 read entry points each to completion (ServeHTTP incl. trailing-slash/404/405/OPTIONS answers and handlers that read the router, Lookup+Close, Reverse, Has, Route, Len, Iter.All/Methods/Prefix/Routes/Reverse, read-only Txn with Commit/Abort, View, Stats, NewRoute); the writer is released only after every reader finished, so a reader that needs the writer lock shows up as lock-waiting (instrumented Lock) or as a goroutine blocked in a sync primitive (stall detector), both violations; or (b) the converse: readers parked mid-iteration / holding a Lookup context / inside a handler / inside View while 1-2 writers must run to completion. Router options are drawn per run; one run in six works on a tree deeper than 25 levels (iterators then size their stack from the tree depth). Non-trivial: at least one reader ran while the writer was parked (a) or a writer committed while a reader was parked (b); distinct = hash of (stage, reader programs, schedule).",
 		Run:  runC06, Quick: 96000, Thorough: 16000000,
 		Real: commonReal, Stub: commonStub,
 		Domain:      []string{"the static half of the quantifier (every call path reachable in the call graph) is static analysis and is not done; reach is dynamic: every public read entry point is driven"},
@@ -172,7 +172,7 @@ func runC06(src sim.Source, o Opts) *Result {
 
 	if !converse {
 		prog := genCTxn(src, cw, &nextTag)
-		stages := []string{"pt:locked", "pt:after_load", "opened", "after_writes", "after_snapshot", "after_iter"}
+		stages := []string{"pt:locked", "pt:after_load", "opened", "after_writes", "after_snapshot", "after_iter", "after_truncate", "after_truncate_method"}
 		if prog.End == "commit" {
 			stages = append(stages, "pt:commit", "pt:before_store", "pt:stored", "pt:before_unlock")
 		} else {
@@ -206,6 +206,12 @@ func runC06(src sim.Source, o Opts) *Result {
 							hold()
 							for range it.All() {
 							}
+						case "after_truncate":
+							_ = txn.Truncate()
+							hold()
+						case "after_truncate_method":
+							_ = txn.Truncate("GET")
+							hold()
 						}
 					}
 					if i == prog.EndAt && prog.End != "commit" {
@@ -221,7 +227,10 @@ func runC06(src sim.Source, o Opts) *Result {
 						cw.execWrite(txn, op)
 					}
 				}
-				if holdAfter == len(prog.Ops) && (stage == "after_writes" || stage == "after_snapshot" || stage == "after_iter") {
+				if holdAfter == len(prog.Ops) && (stage == "after_writes" || stage == "after_snapshot" || stage == "after_iter" || strings.HasPrefix(stage, "after_truncate")) {
+					if strings.HasPrefix(stage, "after_truncate") {
+						_ = txn.Truncate()
+					}
 					hold()
 				}
 				if prog.End != "commit" {
